@@ -202,6 +202,9 @@ mutant("c09-np-ones-without-dtype", "C09", "jax2onnx/plugins/jax/lax/rsqrt.py", 
 mutant("c09-saved-flag-read-after-update", "C09", UIF, '    prev = jax.config.jax_enable_x64\n    try:\n        if enabled != prev:\n            jax.config.update("jax_enable_x64", enabled)\n        yield',
        '    try:\n        jax.config.update("jax_enable_x64", enabled)\n        prev = jax.config.jax_enable_x64\n        yield', expect="R-C09a")
 mutant("c09-restore-writes-constant", "C09", "jax2onnx/converter/conversion_api.py", '        if previous != target:\n            jax.config.update("jax_enable_x64", previous)', '        if previous != target:\n            jax.config.update("jax_enable_x64", False)', expect="R-C09a")
+mutant("c09-spec-dtype-canonicalised-outside-scope", "C09", UIF, "            normalized.append(jax.ShapeDtypeStruct(dims, item.dtype))", "            normalized.append(jax.ShapeDtypeStruct(dims, jax.dtypes.canonicalize_dtype(item.dtype)))", expect="outside-x64-scope")
+mutant("c09-allclose-inputs-to-jnp-outside-scope", "C09", UIF, "    xs = _validation_inputs_to_arrays(inputs)\n\n    params = dict(input_params or {})\n    with _temporary_x64", "    xs = [jnp.asarray(v) for v in _validation_inputs_to_arrays(inputs)]\n\n    params = dict(input_params or {})\n    with _temporary_x64", expect="outside-x64-scope")
+benign("c09-benign-spec-dtype-np", "C09", UIF, "            normalized.append(jax.ShapeDtypeStruct(dims, item.dtype))", "            normalized.append(jax.ShapeDtypeStruct(dims, np.dtype(item.dtype)))")
 benign("c09-benign-positional-dtype", "C09", "jax2onnx/plugins/jax/lax/round.py", "np.asarray(0.5, dtype=np_dtype)", "np.array(0.5, np_dtype)")
 benign("c09-benign-astype", "C09", "jax2onnx/plugins/jax/lax/round.py", "np.asarray(0.5, dtype=np_dtype)", "np.asarray(0.5).astype(np_dtype)")
 
@@ -299,6 +302,9 @@ mutant("c08-unknown-dim-becomes-one", "C08", PPF, "        else:\n            ne
 mutant("c08-normalize-dim-constant", "C08", PPF, "    if isinstance(dim, str):\n        return ir.SymbolicDim(dim)\n    return None", "    if isinstance(dim, str):\n        return ir.SymbolicDim(dim)\n    return 1", expect="_normalize_dim")
 mutant("c08-promotion-type-not-updated", "C08", PPF, "    value.const_value = promoted\n    value.type = ir.TensorType(ir.DataType.DOUBLE)", "    value.const_value = promoted", expect="const_value")
 mutant("c08-shape-from-elsewhere", "C08", PPF, "            output.shape = unknown_shape\n", "            output.shape = ir.Shape(tuple(None for _ in unknown_shape.dims)) if force_rank_only else unknown_shape\n            output.shape = ir.Shape((1,))\n", expect="shape-write")
+mutant("c08-refresh-backward-chain", "C08", OPT, "                for node in allowed_fwd:\n                    _refresh_elementwise_output_shape(node)", "                for node in allowed_nodes:\n                    _refresh_elementwise_output_shape(node)", expect="refresh-order")
+mutant("c08-refresh-set-order", "C08", OPT, "            for node in nodes:\n                if node in elem_nodes:\n                    _refresh_elementwise_output_shape(node)\n\n            # Remove inverse transposes on outputs of the DAG.", "            for node in elem_nodes:\n                _refresh_elementwise_output_shape(node)\n\n            # Remove inverse transposes on outputs of the DAG.", expect="refresh-order")
+benign("c08-benign-refresh-reversed-inline", "C08", OPT, "                for node in allowed_fwd:\n                    _refresh_elementwise_output_shape(node)", "                for node in reversed(allowed_nodes):\n                    _refresh_elementwise_output_shape(node)")
 benign("c08-benign-guard-split", "C08", PPF, "            name = _value_name(output)\n            if name and name in io_names:\n                continue\n", "            name = _value_name(output)\n            if name:\n                if name in io_names:\n                    continue\n")
 mutant("c11-attribute-through-helper-mapping", "C11", "jax2onnx/plugins/flax/nnx/elu.py", 'attrs["alpha"] = float(alpha)', 'attrs["slope"] = float(alpha)', expect="slope")
 mutant("c02-swish-operands-not-compared", "C02", OPT, "        if isinstance(sigmoid_input, ir.Value) and _same_value(\n            sigmoid_input, passthrough\n        ):", "        if isinstance(sigmoid_input, ir.Value):", expect="_same_value")
